@@ -27,7 +27,9 @@ LEVEL_ASSUMPTIONS = [
     "analytic comparison tolerance 5e-2 relative to max |state| (RK45 "
     "rtol=1e-3; wrong time grid or interpolator gives O(1))"]
 REQUIRED = {"multi_control_runs": 20, "direct_j_tables": 300,
-            "direct_j_control_dims[2]": 50, "runs_judged": 300, "full_length_results": 150,
+            "multi_run_ode_results": 60,
+            "direct_j_control_dims[2]": 50, "runs_judged": 300,
+            "full_length_results": 150,
             "failure_rows": 20, "multi_cycle_runs": 20,
             "analytic_comparisons": 30, "j_recomputed": 200,
             "control_entries_rechecked": 5000}
@@ -389,6 +391,66 @@ def multi_control(ctx, rng):
              gamma=gamma)
 
 
+def multi_entry(ctx, rng):
+    """The other public entry point: multi_run_ode with test and training
+    starting states that get different numbers of rows and time limits."""
+    from moptipyapps.dynamic_control.ode import (
+        j_from_ode,
+        multi_run_ode,
+        t_from_ode,
+    )
+    th = float(rng.uniform(0.2, 2.0))
+    A = [[-0.3, -th], [th, -0.3]]
+    K = rng.uniform(-0.4, 0.4, 2)
+    prog = (lin_system(A, [0.0, 1.0]), ctrl_linear, 1)
+    tests = [rng.uniform(-2, 2, 2) for _ in range(int(rng.integers(0, 3)))]
+    trains = [rng.uniform(-2, 2, 2) for _ in range(int(rng.integers(1, 4)))]
+    ts, tt = int(rng.choice([7, 10, 33, 60])), float(rng.choice([1.0, 6.0]))
+    rs, rt = int(rng.choice([5, 12, 25, 61])), float(rng.choice([0.5, 4.0]))
+    use = int(rng.choice([-1, 1, 2]))
+    gamma = float(rng.choice([0.1, 1.5]))
+    got = []
+    got2 = []
+    two = bool(rng.integers(2))
+    coll = [lambda i, ode, j, t: got.append((i, ode, j, t)),
+            lambda i, ode, j, t: got2.append(i)] if two else (
+        lambda i, ode, j, t: got.append((i, ode, j, t)))
+    case = {"kind": "multi_entry", "A": A, "K": [float(v) for v in K],
+            "tests": [[float(v) for v in q] for q in tests],
+            "trains": [[float(v) for v in q] for q in trains],
+            "ts": ts, "tt": tt, "rs": rs, "rt": rt, "use": use,
+            "gamma": gamma, "two": two}
+    ctx.case()
+    ctx.count("multi_run_ode_calls")
+    multi_run_ode(tests, trains, coll, prog[0], prog[1], K, 1, ts, tt, rs,
+                  rt, use, gamma)
+    want = [(q, ts, tt) for q in tests] + [(q, rs, rt) for q in trains]
+    if [g[0] for g in got] != list(range(len(want))) or (
+            two and got2 != list(range(len(want)))):
+        ctx.violation("multi-run-indices",
+                      f"collector saw indices {[g[0] for g in got]} for "
+                      f"{len(want)} starting states", case)
+        return
+    for (i, ode, j, t), (q, steps, tmax) in zip(got, want):
+        ctx.count("multi_run_ode_results")
+        kind = judge_result(ctx, ode, q, steps, tmax, prog[1], K, 1, case)
+        if kind is None:
+            return
+        if kind != "failure" and ode.shape[0] != steps:
+            ctx.violation(
+                "multi-run-rows",
+                f"starting state #{i} ({'test' if i < len(tests) else 'training'}"
+                f"): {ode.shape[0]} rows, requested {steps}", case)
+            return
+        if j != j_from_ode(ode, 2, use, gamma) or t != t_from_ode(ode):
+            ctx.violation("multi-run-j-or-t",
+                          f"collector got j={j}, t={t}; from the same rows: "
+                          f"{j_from_ode(ode, 2, use, gamma)}, "
+                          f"{t_from_ode(ode)}", case)
+            return
+        judge_j(ctx, ode, 2, use, gamma, case)
+
+
 def direct_j(ctx, rng):
     """j_from_ode / diff_from_ode on hand-made result tables."""
     n = int(rng.integers(1, 5))
@@ -467,6 +529,8 @@ def run_shard(ctx, args):
             direct_j(ctx, rng)
         if it % 7 == 0:
             multi_control(ctx, rng)
+        if it % 5 == 1:
+            multi_entry(ctx, rng)
         if k in (0, 1):
             bundled(ctx, rng, it)
         elif k == 2:
@@ -482,6 +546,11 @@ def run_shard(ctx, args):
 def replay(ctx, case):
     rng = ctx.rng
     k = case["kind"]
+    if k == "multi_entry":
+        # the case is a function of the shard's random stream: re-run some
+        for _ in range(200):
+            multi_entry(ctx, rng)
+        return
     if k == "linear":
         A, K, s0 = case["A"], np.array(case["K"]), case["start"]
         M = np.array(A) + np.outer([0.0, 1.0], K)
